@@ -20,6 +20,25 @@
 (*    the order.                                                           *)
 (* Time: chain timestamps in quarter seconds (q); the code divides the     *)
 (* nanosecond difference by 1e9, i.e. (q1 - q0) \div 4.                     *)
+(*                                                                         *)
+(* Forks.  "Its parent" and "the chain's own history" are those of the     *)
+(* CANDIDATE, not of the node's current tip.  A candidate names its parent *)
+(* (field par of a candidate record):                                      *)
+(*   "tip"    the tip of the current chain (mining, normal propagation)    *)
+(*   "comp"   the tip's parent: a competitor of the tip                    *)
+(*   "sibN"   a stored competitor S of the tip stamped half a second AFTER *)
+(*            the tip (a one-block side branch newer than the tip)         *)
+(*   "sibO"   a stored competitor S of the tip stamped like its own parent *)
+(*            (not newer than the tip)                                     *)
+(*   "side"   the tip of the stored side branch `side` (another chain from *)
+(*            the genesis block the node has stored: the chain it followed *)
+(*            before it switched), "side1" that block's parent             *)
+(*   "orphan" a block the node has never seen: no history, no parent       *)
+(*            timestamp - never acceptable                                 *)
+(* The ancestry Anc of the parent (genesis excluded) gives the parent's    *)
+(* timestamp and, through ExpectedBits / Prescribed, the target the        *)
+(* candidate has to declare; the current tip plays no part (TsOk, PowClass, *)
+(* AcceptOnlyEntitled).                                                    *)
 (***************************************************************************)
 EXTENDS Integers, Sequences, FiniteSets, TLC, SequencesExt
 
@@ -29,13 +48,15 @@ CONSTANTS Modes,          \* subset of {"btc", "legacy", "compact"}
           Seed,           \* selects the pseudo-random part of the compact sweep
           NRand,          \* number of pseudo-random words / numbers in the sweep
           KeepHist,
-          KF_PowGrandparentBits   \* known-finding deviation (see ExpectedBits)
+          KF_PowGrandparentBits,  \* known-finding deviation (see ExpectedBits)
+          Sides           \* model checking: names of the stored side branches tried (SideBox); {} = none stored
 
 VARIABLES pc,       \* configuration
           chain,    \* blocks 1..Len(chain): [q |-> timestamp, bits |-> compact target]; the genesis block has q = 0
+          side,     \* a stored side branch: another chain from the genesis block, same shape (<<>>: none)
           ci,       \* compact sweep: number of cases evaluated
           hist
-vars == <<pc, chain, ci, hist>>
+vars == <<pc, chain, side, ci, hist>>
 
 -----------------------------------------------------------------------------
 (* common.go *)
@@ -122,12 +143,15 @@ Proofed(c, bits, hrel) ==
   THEN LET sc == SetCompact(bits) IN ~sc.neg /\ ~sc.ovf /\ ~(sc.v < SetCompact(c.floor).v) /\ hrel <= 0
   ELSE hrel <= 0
 
-(* Candidate blocks on the tip.  bsel names how the declared target is chosen (the recorded trace     *)
-(* carries the concrete bits), tsel the timestamp relative to the parent's, hrel the hash relative  *)
-(* to the declared target, sig / idok / pk the signature, id and public-key consistency.            *)
-CandRec(b, t, h, s, i, p) == [bsel |-> b, tsel |-> t, hrel |-> h, sig |-> s, idok |-> i, pk |-> p]
+(* Candidate blocks.  par names the parent (see the head of the module), bsel how the declared target  *)
+(* is chosen (the recorded trace carries the concrete bits), tsel the timestamp - relative to the      *)
+(* PARENT's ("after" = 1 ns later, "same", "before" = 1 ns earlier) or to the TIP's ("tip+" = 1 ns     *)
+(* after the tip, "tip-" = 1 ns before it) -, hrel the hash relative to the declared target, sig /     *)
+(* idok / pk the signature, id and public-key consistency.                                             *)
+CandRec(b, t, h, s, i, p) == [par |-> "tip", bsel |-> b, tsel |-> t, hrel |-> h, sig |-> s, idok |-> i, pk |-> p]
 Good == CandRec("exp", "after", 0, "ok", TRUE, "match")
-CandList == <<
+On(par, b, t) == [Good EXCEPT !.par = par, !.bsel = b, !.tsel = t]
+TipCands == <<
   Good,
   [Good EXCEPT !.hrel = -1], [Good EXCEPT !.hrel = 1],
   [Good EXCEPT !.tsel = "same"], [Good EXCEPT !.tsel = "before"],
@@ -138,28 +162,86 @@ CandList == <<
   [Good EXCEPT !.tsel = "same", !.hrel = -1], [Good EXCEPT !.tsel = "before", !.hrel = -1],
   [Good EXCEPT !.tsel = "same", !.hrel = 1], [Good EXCEPT !.bsel = "def", !.hrel = 1],
   [Good EXCEPT !.bsel = "par", !.tsel = "same"], [Good EXCEPT !.bsel = "floor", !.hrel = -1] >>
+(* candidates whose parent is NOT the tip.  Target selectors available without asking anybody: "tipb" the tip's own  *)
+(* bits (what was prescribed for a block with the tip's parent at the tip's height), "par" / "gpar" the bits of the   *)
+(* candidate's parent / grandparent, "exp" what the miner is told for the TIP's child, "def".                         *)
+ForkCands == <<
+  \* a competitor of the tip: between its parent and the tip, equal to its parent, before its parent, around the tip
+  On("comp", "tipb", "after"), On("comp", "tipb", "same"), On("comp", "tipb", "before"),
+  On("comp", "tipb", "tip+"), On("comp", "tipb", "tip-"), On("comp", "def", "after"),
+  [On("comp", "tipb", "after") EXCEPT !.hrel = 1],
+  \* a child of a stored competitor that is newer than the tip
+  On("sibN", "par", "after"), On("sibN", "par", "before"), On("sibN", "par", "tip+"),
+  On("sibN", "gpar", "after"), On("sibN", "gpar", "before"), On("sibN", "gpar", "tip+"),
+  On("sibN", "exp", "after"), On("sibN", "exp", "before"), On("sibN", "exp", "tip+"),
+  On("sibN", "def", "after"), On("sibN", "def", "before"),
+  \* a child of a stored competitor that is not newer than the tip
+  On("sibO", "par", "after"), On("sibO", "par", "same"), On("sibO", "par", "before"), On("sibO", "par", "tip-"),
+  On("sibO", "gpar", "after"), On("sibO", "gpar", "before"), On("sibO", "gpar", "tip-"),
+  On("sibO", "exp", "after"), On("sibO", "exp", "before"), On("sibO", "exp", "tip-"),
+  On("sibO", "def", "after"),
+  \* a child of the tip of the stored side branch, and of that block's parent
+  On("side", "par", "after"), On("side", "par", "before"), On("side", "par", "tip+"), On("side", "par", "tip-"),
+  On("side", "gpar", "after"), On("side", "gpar", "before"), On("side", "gpar", "tip+"), On("side", "gpar", "tip-"),
+  On("side", "def", "after"),
+  On("side1", "par", "after"), On("side1", "par", "before"), On("side1", "par", "tip+"),
+  On("side1", "gpar", "after"), On("side1", "gpar", "before"), On("side1", "gpar", "tip+"),
+  \* a child (height of the tip + 1) of a block the node does not know
+  On("orphan", "def", "tip+"), On("orphan", "exp", "tip+"), On("orphan", "def", "tip-") >>
+CandList == TipCands \o ForkCands
+
+(* the ancestry of a candidate's parent: the blocks from height 1 up to the parent (<<>>: the parent is the genesis block) *)
+\* (Front(ch) of SequencesExt: all but the last block)
+HasPar(ch, sd, par) == CASE par \in {"tip", "orphan"} -> TRUE
+                         [] par \in {"comp", "sibN", "sibO"} -> Len(ch) >= 1
+                         [] par = "side"  -> Len(sd) >= 1
+                         [] par = "side1" -> Len(sd) >= 2
+Anc(ch, sd, par) == CASE par = "tip"   -> ch
+                      [] par = "comp"  -> Front(ch)
+                      [] par = "sibN"  -> Append(Front(ch), [q |-> ch[Len(ch)].q + 2, bits |-> ch[Len(ch)].bits])
+                      [] par = "sibO"  -> Append(Front(ch), [q |-> Q(ch, Len(ch) - 1), bits |-> ch[Len(ch)].bits])
+                      [] par = "side"  -> sd
+                      [] par = "side1" -> Front(sd)
+(* the timestamp rule: not before the PARENT's.  Timestamps given relative to the tip are compared through the    *)
+(* quarter-second stamps of tip and parent (1 ns is less than a quarter second).                                  *)
+TsOk(ch, anc, tsel) == CASE tsel \in {"after", "same"} -> TRUE
+                         [] tsel = "before" -> FALSE
+                         [] tsel = "tip+" -> Q(ch, Len(ch)) >= Q(anc, Len(anc))
+                         [] tsel = "tip-" -> Q(ch, Len(ch)) > Q(anc, Len(anc))
 
 (* the concrete declared bits of a selector (generation; the harness does the same on the real chain) *)
-SelBits(c, ch, sel) ==
-  LET e == ExpectedBits(c, ch, Len(ch) + 1, FALSE) IN
+SelBits(c, ch, sd, k) ==
+  IF ~HasPar(ch, sd, k.par) THEN c.def ELSE
+  LET anc == Anc(ch, sd, k.par)
+      e == ExpectedBits(c, ch, Len(ch) + 1, FALSE)
+      sel == k.bsel IN
   CASE sel = "exp"   -> e
     [] sel = "def"   -> c.def
     [] sel = "floor" -> c.floor
-    [] sel = "par"   -> IF Len(ch) = 0 THEN c.def ELSE ch[Len(ch)].bits
+    [] sel = "par"   -> IF Len(anc) = 0 THEN c.def ELSE anc[Len(anc)].bits
+    [] sel = "gpar"  -> IF Len(anc) <= 1 THEN c.def ELSE anc[Len(anc) - 1].bits
+    [] sel = "tipb"  -> ch[Len(ch)].bits
     [] sel = "easy"  -> IF c.mode = "btc" THEN <<e[1], IF e[2] * 2 >= SignBit THEN SignBit - 1 ELSE e[2] * 2>> ELSE <<0, e[2] - 1>>
     [] sel = "hard"  -> IF c.mode = "btc" THEN <<e[1], e[2] \div 2>> ELSE <<0, e[2] + 1>>
 
-(* PoWConsensus.CheckMinerMatch, in the code's order *)
-PowClass(c, ch, k, bits, gp) ==
+(* PoWConsensus.CheckMinerMatch, in the code's order; anc = the ancestry of the candidate's parent, ch the node's    *)
+(* current chain (it only places the timestamps that are given relative to the tip)                                 *)
+PowClass(c, ch, anc, k, bits, gp) ==
   IF ~Proofed(c, bits, k.hrel) THEN "rej"                                \* IsProofed(blockid, declared bits)
   ELSE IF ~k.idok THEN "rej"                                             \* MakeBlockId() # blockid
-  ELSE IF bits # ExpectedBits(c, ch, Len(ch) + 1, gp) THEN "rej"         \* refreshDifficulty # declared bits
-  ELSE IF k.tsel = "before" THEN "rej"                                   \* timestamp < parent's
+  ELSE IF bits # ExpectedBits(c, anc, Len(anc) + 1, gp) THEN "rej"       \* refreshDifficulty(PreHash, height) # declared bits
+  ELSE IF ~TsOk(ch, anc, k.tsel) THEN "rej"                              \* timestamp < QueryBlock(PreHash)'s
   ELSE IF k.pk # "match" THEN "rej"                                      \* address # address of the public key
   ELSE IF k.sig # "ok" THEN "rej" ELSE "ok"                              \* VerifyECDSA
 
-CandBits(c, ch) == [i \in 1..Len(CandList) |-> SelBits(c, ch, CandList[i].bsel)]
-CandAcc(c, ch, cb, gp) == [i \in 1..Len(CandList) |-> PowClass(c, ch, CandList[i], cb[i], gp)]
+CandBits(c, ch, sd) == [i \in 1..Len(CandList) |-> SelBits(c, ch, sd, CandList[i])]
+(* "na": the candidate's parent does not exist in this state (nothing is submitted).  CandAccN: the first n           *)
+(* candidates of the list (a recorded step may have submitted the tip candidates only).                               *)
+CandAccN(c, ch, sd, cb, gp, n) == [i \in 1..n |->
+                                 IF CandList[i].par = "orphan" THEN "rej"       \* QueryBlock(PreHash) fails
+                                 ELSE IF HasPar(ch, sd, CandList[i].par)
+                                 THEN PowClass(c, ch, Anc(ch, sd, CandList[i].par), CandList[i], cb[i], gp) ELSE "na"]
+CandAcc(c, ch, sd, cb, gp) == CandAccN(c, ch, sd, cb, gp, Len(CandList))
 
 -----------------------------------------------------------------------------
 (* compact sweep cases *)
@@ -180,8 +262,17 @@ CompactRes(k) ==
 Log(e) == hist' = IF KeepHist THEN Append(hist, e) ELSE hist
 PCfgEvent(c) == [op |-> "cfg", cfg |-> c, cands |-> IF Chainy(c) THEN CandList ELSE <<>>]
 
+(* stored side branches for model checking: chains built by the IDEAL rule from fixed block intervals *)
+RECURSIVE Build(_, _, _)
+Build(c, ch, ds) == IF ds = <<>> THEN ch
+                    ELSE Build(c, Append(ch, [q |-> Q(ch, Len(ch)) + ds[1], bits |-> ExpectedBits(c, ch, Len(ch) + 1, FALSE)]), Tail(ds))
+SideChain(c, name) == CASE name = "slow"  -> Build(c, <<>>, [i \in 1..MaxLen(c) |-> 25 * c.period])
+                        [] name = "fast"  -> Build(c, <<>>, [i \in 1..MaxLen(c) |-> 1])
+                        [] name = "short" -> Build(c, <<>>, [i \in 1..(c.gap + 1) |-> 4 * c.period])
+SideBox(c) == IF Chainy(c) THEN {<<>>} \cup {SideChain(c, nm) : nm \in Sides} ELSE {<<>>}
+
 Init ==
-  /\ pc \in PowBox /\ chain = <<>> /\ ci = 0
+  /\ pc \in PowBox /\ chain = <<>> /\ side \in SideBox(pc) /\ ci = 0
   /\ hist = IF KeepHist THEN <<PCfgEvent(pc)>> ELSE <<>>
 
 (* the next block is mined d quarter seconds after the tip with the prescribed target (gp selects   *)
@@ -192,23 +283,25 @@ MineW(d, cb, gp) ==
   /\ LET h == Len(chain) + 1
          bits == ExpectedBits(pc, chain, h, gp)
      IN /\ chain' = Append(chain, [q |-> Q(chain, h - 1) + d, bits |-> bits])
-        /\ Log([op |-> "mine", d |-> d, bits |-> bits, res |-> "ok", cb |-> cb, acc |-> CandAcc(pc, chain, cb, gp)])
-  /\ UNCHANGED <<pc, ci>>
-Mine(d) == MineW(d, CandBits(pc, chain), FALSE)
+        /\ Log([op |-> "mine", d |-> d, bits |-> bits, res |-> "ok", cb |-> cb, acc |-> IF cb = <<>> THEN <<>> ELSE CandAcc(pc, chain, side, cb, gp)])
+  /\ UNCHANGED <<pc, side, ci>>
+Mine(d) == MineW(d, CandBits(pc, chain, side), FALSE)
+(* the node has stored another chain from the genesis block (the one it followed before it switched to the current one) *)
+SetSide(sd) == side' = sd /\ UNCHANGED <<pc, chain, ci>> /\ Log([op |-> "side", blocks |-> sd])
 
 CompactStep ==
   /\ pc.mode = "compact" /\ ci < Len(CompactSeq)
   /\ ci' = ci + 1
   /\ Log([op |-> "compact", c |-> CompactSeq[ci + 1], res |-> CompactRes(CompactSeq[ci + 1])])
-  /\ UNCHANGED <<pc, chain>>
-Compact(k) == /\ ci' = ci + 1 /\ Log([op |-> "compact", c |-> k, res |-> CompactRes(k)]) /\ UNCHANGED <<pc, chain>>
+  /\ UNCHANGED <<pc, chain, side>>
+Compact(k) == /\ ci' = ci + 1 /\ Log([op |-> "compact", c |-> k, res |-> CompactRes(k)]) /\ UNCHANGED <<pc, chain, side>>
 
 Next == (\E d \in Deltas(pc) : Mine(d)) \/ CompactStep
 Spec == Init /\ [][Next]_vars
 Done == IF Chainy(pc) THEN Len(chain) = MaxLen(pc) ELSE ci = Len(CompactSeq)
 
-SetCfg(c) == pc' = c /\ chain' = <<>> /\ ci' = 0 /\ Log(PCfgEvent(c))
-Reset == pc' = PCfg("compact", 0, 0, <<0, 0>>, <<0, 0>>) /\ chain' = <<>> /\ ci' = 0 /\ hist' = <<>>
+SetCfg(c) == pc' = c /\ chain' = <<>> /\ side' = <<>> /\ ci' = 0 /\ Log(PCfgEvent(c))
+Reset == pc' = PCfg("compact", 0, 0, <<0, 0>>, <<0, 0>>) /\ chain' = <<>> /\ side' = <<>> /\ ci' = 0 /\ hist' = <<>>
 
 -----------------------------------------------------------------------------
 (* The property (IDEAL).  The prescribed target is defined from the genesis block upward, without     *)
@@ -249,15 +342,20 @@ RetargetDirection == Chainy(pc) => \A h \in 2..Len(chain) :
         new == TargetOf(pc, chain[h].bits)
     IN /\ span >= expected => new >= old
        /\ span <= expected => new <= old
-(* acceptance: only with the prescribed target declared, a hash not above it, a timestamp not before *)
-(* the parent's, the id being the header hash and a valid signature of the proposer                *)
+(* acceptance: only with the target declared that the candidate's OWN ancestry prescribes, a hash not above it, a     *)
+(* timestamp not before its PARENT's, the id being the header hash and a valid signature of the proposer - whatever *)
+(* the node's current tip is                                                                                        *)
+ParKinds == {"tip", "comp", "sibN", "sibO", "side", "side1"}
 AcceptOnlyEntitled == Chainy(pc) =>
-  LET cb == CandBits(pc, chain)
-      acc == CandAcc(pc, chain, cb, FALSE)
-  IN \A i \in 1..Len(CandList) :
+  \* (singleton quantifiers bind a value once; TLC re-evaluates LET definitions at every use)
+  \A cb \in {CandBits(pc, chain, side)} : \A acc \in {CandAcc(pc, chain, side, cb, FALSE)} :
+  /\ \A i \in 1..Len(CandList) : CandList[i].par = "orphan" => acc[i] = "rej"
+  /\ \A par \in {x \in ParKinds : HasPar(chain, side, x)} :
+     \A anc \in {Anc(chain, side, par)} : \A pres \in {Prescribed(pc, anc, Len(anc) + 1)} :
+     \A i \in {j \in 1..Len(CandList) : CandList[j].par = par} :
        LET k == CandList[i] IN
-       acc[i] = "ok" <=> (/\ cb[i] = Prescribed(pc, chain, Len(chain) + 1)
-                          /\ k.hrel <= 0 /\ k.tsel # "before" /\ k.idok /\ k.sig = "ok" /\ k.pk = "match")
+       acc[i] = "ok" <=> (/\ cb[i] = pres
+                          /\ k.hrel <= 0 /\ TsOk(chain, anc, k.tsel) /\ k.idok /\ k.sig = "ok" /\ k.pk = "match")
 
 (* compact form: what is encoded decodes to itself up to the truncation, what is decoded encodes back *)
 CompactRoundTrip == (pc.mode = "compact" /\ ci > 0) =>
@@ -276,5 +374,5 @@ CompactRoundTrip == (pc.mode = "compact" /\ ci > 0) =>
   ELSE TRUE
 
 TypeOK == pc \in PowBox /\ Len(chain) <= (IF Chainy(pc) THEN MaxLen(pc) ELSE 0)
-View == <<pc, chain, ci>>
+View == <<pc, chain, side, ci>>
 =============================================================================
